@@ -1,12 +1,155 @@
 /-
   C07 — maximum, arg-maximum and thresholding of striped scores match their definitions.
-  (theorems under construction)
+
+  All theorems are about the mirror models of LMV.Model.Maximum (the definitions the compiled driver
+  executes against the Rust code), for every row count, over any element type whose comparisons form
+  a total preorder (`Cmp.Total` — what "no NaN" means for `f32`; `u8` satisfies it outright).
+  Facts about the regenerated tables (`LMV.Gen.MaxK`: initial accumulators, compare predicates,
+  load/store offsets, unpack order, `permute2x128` immediates, dispatcher arms) enter by unfolding
+  and kernel evaluation, so an edit of the Rust kernels that changes a table breaks these proofs.
 -/
-import LMV.Model.Maximum
+import LMV.Lemmas.Maximum
 
 namespace LMV
 namespace C07
-open Maximum
+
+open Maximum LMV.Gen.MaxK
+
+variable {α : Type}
+
+/-! ### What the property says -/
+
+/-- `p` designates a cell of the `rows × C` matrix, and no cell holds a larger value -/
+def HoldsMax (o : Cmp α) (rows C : Nat) (f : Nat → Nat → α) (p : Coord) : Prop :=
+  p.1 < rows ∧ p.2 < C ∧ ∀ r c, r < rows → c < C → o.le (f r c) (f p.1 p.2) = true
+
+/-- `v` is stored in some cell, and no cell holds a larger value -/
+def IsMax (o : Cmp α) (rows C : Nat) (f : Nat → Nat → α) (v : α) : Prop :=
+  (∃ r c, r < rows ∧ c < C ∧ f r c = v) ∧ ∀ r c, r < rows → c < C → o.le (f r c) v = true
+
+theorem HoldsMax.isMax {o : Cmp α} {rows C : Nat} {f : Nat → Nat → α} {p : Coord}
+    (h : HoldsMax o rows C f p) : IsMax o rows C f (f p.1 p.2) :=
+  ⟨⟨p.1, p.2, h.1, h.2.1, rfl⟩, h.2.2⟩
+
+/-- two maxima of one matrix are equivalent (each `<=` the other) … -/
+theorem IsMax.equiv {o : Cmp α} {rows C : Nat} {f : Nat → Nat → α} {v w : α}
+    (hv : IsMax o rows C f v) (hw : IsMax o rows C f w) : o.le v w = true ∧ o.le w v = true := by
+  obtain ⟨⟨r, c, hr, hc, rfl⟩, hv2⟩ := hv
+  obtain ⟨⟨r', c', hr', hc', rfl⟩, hw2⟩ := hw
+  exact ⟨hw2 r c hr hc, hv2 r' c' hr' hc'⟩
+
+/-- … hence equal when the order is antisymmetric (a linear order) -/
+theorem IsMax.unique {o : Cmp α} {rows C : Nat} {f : Nat → Nat → α} {v w : α}
+    (hanti : ∀ a b, o.le a b = true → o.le b a = true → a = b)
+    (hv : IsMax o rows C f v) (hw : IsMax o rows C f w) : v = w :=
+  hanti _ _ (hv.equiv hw).1 (hv.equiv hw).2
+
+/-! ### Trait defaults: the scalar scans -/
+
+/-- the cells in the order the scalar loops visit them -/
+def cellsOf (rows C : Nat) : List Coord :=
+  (List.range rows).flatMap fun i => (List.range C).map fun j => (i, j)
+
+theorem mem_cellsOf {rows C : Nat} {p : Coord} : p ∈ cellsOf rows C ↔ p.1 < rows ∧ p.2 < C := by
+  obtain ⟨r, c⟩ := p
+  simp only [cellsOf, List.mem_flatMap, List.mem_map, List.mem_range, Prod.mk.injEq]
+  constructor
+  · rintro ⟨i, hi, j, hj, rfl, rfl⟩; exact ⟨hi, hj⟩
+  · rintro ⟨h1, h2⟩; exact ⟨r, h1, c, h2, rfl, rfl⟩
+
+theorem argmaxGeneric_eq_none_iff (o : Cmp α) (C rows : Nat) (f : Nat → Nat → α) :
+    argmaxGeneric o C rows f = none ↔ rows = 0 := by
+  unfold argmaxGeneric
+  by_cases h : rows = 0 <;> simp [h]
+
+theorem argmaxGeneric_eq_fold (o : Cmp α) (C rows : Nat) (f : Nat → Nat → α) (h : rows ≠ 0) :
+    argmaxGeneric o C rows f =
+      some (let b := (cellsOf rows C).foldl (fun b p => genericStep o f p.1 b p.2) ⟨0, 0, f 0 0⟩
+            (b.row, b.col)) := by
+  have hr : 0 % rows = 0 := Nat.zero_mod _
+  have hd : 0 / rows = 0 := Nat.zero_div _
+  simp only [argmaxGeneric, h, if_false, cellsOf, List.foldl_flatMap, List.foldl_map, hr, hd]
+
+/-- the scalar arg-max scan returns a cell holding the largest value -/
+theorem argmaxGeneric_spec (o : Cmp α) (ht : o.Total) (C rows : Nat) (hC : 0 < C)
+    (f : Nat → Nat → α) (p : Coord) (h : argmaxGeneric o C rows f = some p) :
+    HoldsMax o rows C f p := by
+  have hrows : rows ≠ 0 := by
+    intro h0; rw [(argmaxGeneric_eq_none_iff o C rows f).2 h0] at h; cases h
+  rw [argmaxGeneric_eq_fold o C rows f hrows] at h
+  simp only [Option.some.injEq] at h
+  have hstep1 : ∀ (s : Best α) (x : Coord),
+      o.le s.score (genericStep o f x.1 s x.2).score = true := by
+    intro s x
+    simp only [genericStep, genericArgmaxRel, Rel.eval]
+    by_cases hc : o.le s.score (f x.1 x.2) = true
+    · simpa [hc] using hc
+    · simpa [hc] using ht.refl _
+  have hstep2 : ∀ (s : Best α) (x : Coord),
+      o.le (f x.1 x.2) (genericStep o f x.1 s x.2).score = true := by
+    intro s x
+    simp only [genericStep, genericArgmaxRel, Rel.eval]
+    by_cases hc : o.le s.score (f x.1 x.2) = true
+    · simpa [hc] using ht.refl _
+    · simpa [hc] using ht.le_of_not_le (by simpa using hc)
+  have hbest := foldl_best o ht (fun b : Best α => b.score) (fun x : Coord => f x.1 x.2)
+    (fun b x => genericStep o f x.1 b x.2) hstep1 hstep2 (cellsOf rows C) ⟨0, 0, f 0 0⟩
+  have hinv := foldl_inv (fun b : Best α => b.row < rows ∧ b.col < C ∧ b.score = f b.row b.col)
+    (fun b x => genericStep o f x.1 b x.2) (cellsOf rows C) ⟨0, 0, f 0 0⟩
+    (by
+      intro s x hx hs
+      simp only [genericStep]
+      by_cases hc : genericArgmaxRel.eval o (f x.1 x.2) s.score = true
+      · simpa [hc] using mem_cellsOf.1 hx
+      · simpa [hc] using hs)
+    ⟨Nat.pos_of_ne_zero hrows, hC, rfl⟩
+  generalize (cellsOf rows C).foldl (fun b x => genericStep o f x.1 b x.2) ⟨0, 0, f 0 0⟩ = b
+    at h hbest hinv
+  subst h
+  refine ⟨hinv.1, hinv.2.1, ?_⟩
+  intro r c hr hc
+  have := hbest.2 (r, c) (mem_cellsOf.2 ⟨hr, hc⟩)
+  simpa [hinv.2.2] using this
+
+theorem maxGeneric_eq_none_iff (o : Cmp α) (C rows : Nat) (f : Nat → Nat → α) :
+    maxGeneric o C rows f = none ↔ rows = 0 := by
+  simp [maxGeneric, maxOfArgmax, argmaxGeneric_eq_none_iff]
+
+/-- the scalar maximum is attained and dominates every cell -/
+theorem maxGeneric_spec (o : Cmp α) (ht : o.Total) (C rows : Nat) (hC : 0 < C)
+    (f : Nat → Nat → α) (v : α) (h : maxGeneric o C rows f = some v) : IsMax o rows C f v := by
+  simp only [maxGeneric, maxOfArgmax, Option.map_eq_some_iff] at h
+  obtain ⟨p, hp, rfl⟩ := h
+  exact (argmaxGeneric_spec o ht C rows hC f p hp).isMax
+
+/-- `threshold t` contains exactly the coordinates of the cells `>= t` … -/
+theorem mem_thresholdGeneric (o : Cmp α) (C rows : Nat) (f : Nat → Nat → α) (t : α) (p : Coord) :
+    p ∈ thresholdGeneric o C rows f t ↔ p.1 < rows ∧ p.2 < C ∧ o.le t (f p.1 p.2) = true := by
+  obtain ⟨r, c⟩ := p
+  simp only [thresholdGeneric, genericThresholdRel, Rel.eval, List.mem_flatMap, List.mem_map,
+    List.mem_filter, List.mem_range, Prod.mk.injEq]
+  constructor
+  · rintro ⟨i, hi, j, ⟨hj, hle⟩, rfl, rfl⟩; exact ⟨hi, hj, hle⟩
+  · rintro ⟨h1, h2, h3⟩; exact ⟨r, h1, c, ⟨h2, h3⟩, rfl, rfl⟩
+
+/-- … each once -/
+theorem thresholdGeneric_nodup (o : Cmp α) (C rows : Nat) (f : Nat → Nat → α) (t : α) :
+    (thresholdGeneric o C rows f t).Nodup := by
+  unfold thresholdGeneric List.Nodup
+  rw [List.pairwise_flatMap]
+  constructor
+  · intro i _
+    rw [List.pairwise_map]
+    have h := (List.nodup_range (n := C)).sublist (List.filter_sublist (p := fun j => genericThresholdRel.eval o (f i j) t))
+    exact List.Pairwise.imp (fun hab heq => hab (by cases heq; rfl)) h
+  · exact List.Pairwise.imp
+      (fun {a b} hab x hx y hy heq => by
+        simp only [List.mem_map] at hx hy
+        obtain ⟨_, _, rfl⟩ := hx
+        obtain ⟨_, _, rfl⟩ := hy
+        cases heq
+        exact hab rfl)
+      (List.nodup_range (n := rows))
 
 end C07
 end LMV
